@@ -5,7 +5,7 @@ open VtlModel.Sem
 partial def loop (h : IO.FS.Stream) (out : IO.FS.Stream) : IO Unit := do
   let line ← h.getLine
   if line.isEmpty then return ()
-  out.putStrLn (handleLineV line)
+  out.putStrLn (handleLineViral line)
   loop h out
 
 def main : IO Unit := do
